@@ -954,6 +954,7 @@ func run(ci any) (res obs.Result) {
 	if !c.NoModel && !strings.HasPrefix(res.Class, "harness") {
 		res.Coq = obs.App("CRun", obs.Nat(c.M), obs.Z(w.now0), "["+strings.Join(steps, ";\n ")+"]", obs.List(keys), obs.List(dones))
 	}
+	addon2.Dump("obs_lock", c, res.Coq)
 	return
 }
 
